@@ -587,6 +587,41 @@ pub fn parse_j(text: &str) -> J {
     conv(&serde_json::from_str(text).expect("parse_j: fixed text"))
 }
 
+/// CHAIN WORDS: shapes that are chains of at most three one-slot containers (array, one-slot tuple, one-member object,
+/// one-variant OneOf, OneOf beside Null — each with either flag) around a leaf: 2 700 shapes in which every
+/// combination of kinds and flags occurs at every one of three levels
+pub fn chain_words() -> Vec<JsonShape> {
+    let leaves = [JsonShape::Number { optional: false }, JsonShape::Number { optional: true }, JsonShape::Null];
+    let wrap = |k: usize, x: JsonShape| -> JsonShape {
+        match k {
+            0 => arr(x, false),
+            1 => arr(x, true),
+            2 => tup(vec![x], false),
+            3 => tup(vec![x], true),
+            4 => obj(vec![("a", x)], false),
+            5 => obj(vec![("a", x)], true),
+            6 => one_of(vec![x], false),
+            7 => one_of(vec![x], true),
+            _ => one_of(vec![x, JsonShape::Null], false),
+        }
+    };
+    let mut out = Vec::new();
+    for l in &leaves {
+        for a in 0..9 {
+            let s1 = wrap(a, l.clone());
+            out.push(s1.clone());
+            for b in 0..9 {
+                let s2 = wrap(b, s1.clone());
+                out.push(s2.clone());
+                for c in 0..9 {
+                    out.push(wrap(c, s2.clone()));
+                }
+            }
+        }
+    }
+    out
+}
+
 /// DICTIONARY at the level of shapes: every string literal of the library's source as a member name, in objects
 /// of both flags, beside other members, inside an array / a tuple / a OneOf; member names whose length sits at a
 /// threshold the source mentions, with a twin that differs only in the last character
